@@ -10,6 +10,11 @@ CLASSES = [
     ('P', ('class', ['x'], [('v', False, ('ref', 'x')), ('w', False, ('opt', B))])),
     ('W', ('class', None, [('xs', False, ('star', K))])),
     ('E', ('rule', None, ('optable', K, (('left', (('str', 'b'),)), ('prefix', (('str', 'b'),)))))),
+    ('A1', ('class', None, [('k', False, A)])),
+    # a class whose member is a table with a non-associative row (the expression ends before a chained operator)
+    ('Cmp', ('class', None, [('e', False, ('optable', ('ref', 'A1'), (('infix', (('str', 'b'),)),))), ('t', False, ('opt', B))])),
+    # a class whose member is a choice that cannot fail, after an alternative that consumes and then fails
+    ('Alt', ('class', None, [('v', False, ('choice', ('seq', K, ('str', 'bb')), ('opt', ('ref', 'A1'))))])),
 ]
 STARTS = [
     ('star', ('rule', None, ('star', K)), True),
@@ -25,6 +30,11 @@ STARTS = [
     ('listfield', ('rule', None, ('star', ('seq', ('ref', 'W'), B))), True),
     ('backtrack', ('rule', None, ('seq', K, ('back', 1), ('opt', K))), False),
     ('expectnot', ('rule', None, ('seq', ('expectnot', K2), ('star', K))), True),
+    ('optable-infix', ('rule', None, ('star', ('ref', 'Cmp'))), True),
+    ('always-choice', ('rule', None, ('star', ('seq', ('ref', 'Alt'), ('opt', B)))), True),
+    # instances held in dict values and tuples built by inline Python
+    ('dict-values', ('rule', None, ('apply', ('star', K), ('py', "lambda xs: {'items': xs, 'first': xs[:1], 'n': len(xs)}"))), False),
+    ('tuple-values', ('rule', None, ('apply', ('seq', ('opt', K2), ('star', K)), ('py', 'lambda p: (p[0], tuple(p[1]))'))), False),
 ]
 # (name, patterns, style, input alphabet): \r and form feed are not line breaks for sourcer
 IGNORES = [('none', [], 'named', 'ab\\r\\n'), ('sp', [('re', ' +')], 'named', 'ab\\s\\n'),
@@ -110,8 +120,8 @@ def jobs(tier):
 
 def run(tier, seed):
     chk = Check('C10', tier, seed)
-    chk.rule = ('13 start shapes with classes (repeated, optional, nested, abandoned alternatives that built instances, memoised reuse, '
-                'parsed inside lookahead, inside an operator table, class template, class as start rule, list fields, Backtrack) x 5 '
+    chk.rule = ('17 start shapes with classes (repeated, optional, nested, abandoned alternatives that built instances, memoised reuse, '
+                'parsed inside lookahead, inside an operator table, class template, class as start rule, list fields, Backtrack, a non-associative table inside a class, a choice that cannot fail, instances held in dict values and tuples) x 5 '
                 'ignore configurations x every parameterless rule/class as entry x all inputs over {a,b,space,newline} of length <=5/6 x '
                 'every start offset; oracle: spans recorded by the model (start/end index, line/column) plus nesting / disjointness / '
                 'order / converted-exactly-once invariants on the implementation tree; non-trivial = the model run needed a restore')
